@@ -99,9 +99,9 @@ Proof.
     as (sg & Ha & Hinc & Hso & _ & Hle & _).
   cbn [length] in Ha, Hinc. change (Z.of_nat 0) with 0 in Ha, Hinc. rewrite Ha.
   destruct (our_vaa e1) as [v|] eqn:Ev; [|split; [apply Hkeep; exact He1|constructor]].
-  destruct ((go_quorum (Z.of_nat (length (keys g))) <=? Z.of_nat (length sg)) && negb (submitted e1)) eqn:Eq;
+  destruct (proc_local_quorum_reached (go_quorum (Z.of_nat (length (keys g)))) (Z.of_nat (length sg)) && negb (submitted e1)) eqn:Eq;
     [|split; [apply Hkeep; exact He1|constructor]].
-  apply andb_prop in Eq as [Eq _]. apply Z.leb_le in Eq.
+  apply andb_prop in Eq as [Eq _]. apply local_quorum_reached_iff in Eq.
   destruct sg as [|s0 sg'] eqn:Esg; [split; [apply Hkeep; exact He1|repeat constructor; intros i b X; discriminate]|].
   rewrite <- Esg in *. clear Esg.
   destruct (E_vaa _ _ _ _ He1 v Ev) as [Hdv HinO].
@@ -163,7 +163,7 @@ Proof.
   destruct (cur st) as [g|] eqn:Ec; [|split; [exact HI|constructor]].
   destruct (length (keys g) =? 0)%nat; [split; [exact HI|constructor]|].
   destruct (length (sigs v) =? 0)%nat; [split; [exact HI|constructor]|].
-  destruct (Z.ltb_spec (Z.of_nat (length (sigs v))) (go_quorum (Z.of_nat (length (keys g))))) as [|Hq]; [split; [exact HI|constructor]|].
+  destruct (inbound_below_quorum_spec (Z.of_nat (length (sigs v))) (go_quorum (Z.of_nat (length (keys g))))) as [|Hq]; [split; [exact HI|constructor]|].
   destruct (verify_sigs rec keccak v (keys g)) eqn:Ev; cbn [negb]; [|split; [exact HI|constructor]].
   destruct (dlookup (id_of v) (db st)) as [x|] eqn:El; [split; [exact HI|constructor]|].
   assert (Hqv : qvalid v (keys g)).
